@@ -93,6 +93,15 @@ pub fn vocabulary() -> Vec<(&'static str, Op)> {
         // the same pointer written back with another timestamp (thread 1 only holds these)
         ("store_xts", Op::Store { loc: Loc::Cell(0), val: RcArg::Slot(3) }),
         ("wstore_xts", Op::WStore { loc: WLoc::Cell(0), val: RcArg::Slot(3) }),
+        // the same calls on a cell that is EMPTY (cell 1): peek-then-write shortcuts for the empty case race here
+        ("store_y_e", Op::Store { loc: Loc::Cell(1), val: RcArg::Slot(2) }),
+        ("store_null_e", Op::Store { loc: Loc::Cell(1), val: RcArg::Null(0) }),
+        ("swap_y_e", Op::Swap { loc: Loc::Cell(1), val: RcArg::Slot(2), dst: 5 }),
+        ("cas_y_e", Op::Cas { loc: Loc::Cell(1), exp: SnArg::Null(0), val: RcArg::Slot(2), weak: false, dst_rc: 5, dst_sn: 2 }),
+        ("load_e", Op::Load { loc: Loc::Cell(1), dst: 3 }),
+        ("wstore_y_e", Op::WStore { loc: WLoc::Cell(1), val: RcArg::Slot(1) }),
+        ("wswap_y_e", Op::WSwap { loc: WLoc::Cell(1), val: RcArg::Slot(1), dst: 4 }),
+        ("wcas_y_e", Op::WCas { loc: WLoc::Cell(1), exp: SnArg::Null(0), val: RcArg::Slot(1), weak: false, dst_wk: 4, dst_ws: 2 }),
         ("unpin", Op::Unpin),
         ("reactivate", Op::Reactivate),
     ]
